@@ -23,7 +23,7 @@ def shards(tier, seed):
            {'name': 'find-a', 'kind': 'find', 'n': 8 if big else 6, 'part': 0}, {'name': 'find-b', 'kind': 'find', 'n': 8 if big else 6, 'part': 1},
            {'name': 'unit_vector', 'kind': 'unit', 'n': 17 if big else 12}, {'name': 'tz-gcp2', 'kind': 'tz', 'l': 5 if big else 4}]
     for c in [(3, 1, False), (3, 1, True), (5, 2, False)]:
-        out.append({'name': config_name(c), 'kind': 'sim', 'cfg': list(c), 'cases': 6 * (8 if big else 1)})
+        out.append({'name': config_name(c), 'kind': 'sim', 'cfg': list(c), 'cases': 6 * (8 if big else 3)})
     return out
 
 
